@@ -3,7 +3,9 @@
 to a SCRATCH COPY of the Rust sources (never /repo), regenerate Extracted/ with CX_REPO pointing at the copy, rebuild the tie and
 report which theorems stop checking.  Run in a private copy of /verif (it rewrites lean/CxVerif/Extracted and restores it at the
 end):   python3 tools/ktx_glue_simd_mutate.py [mutation names…]
-Expected: every mutation except the `*_whitespace_comment` ones (no change of the generated file) breaks the build."""
+Expected: every mutation except the `*_whitespace_comment` ones (no change of the generated file) breaks the build.
+`--isolate`: after the extraction every OTHER generated file (Extracted/Simd.lean …: the constant tables of the older lane models,
+which many of these mutations also change) is restored to its baseline, so that only the translator tie is exercised."""
 import os, re, subprocess, sys, time, json, tempfile
 V = os.path.dirname(os.path.dirname(os.path.abspath(__file__)))
 RC = os.path.join(tempfile.gettempdir(), "ktx_glue_simd_mutate_repo")
@@ -29,6 +31,22 @@ MUT = {
     "a11_align_repr_removed": (CC, "#[repr(align(16))]\npub struct Align128", "pub struct Align128"),
     "a12_nonce_len_test": (CC, "} else if nonce.len() == 8 {", "} else if nonce.len() >= 8 {"),
     "a_whitespace_comment": None,
+    # ---- (b) sha2/impl256/sse41.rs, avx.rs
+    "b1_gather_add_15": (SSE, "temp = _mm_insert_epi32(temp, read(block.add(16)), 1);", "temp = _mm_insert_epi32(temp, read(block.add(15)), 1);"),
+    "b2_avx_batch_advance": (AVX, "block = &block[512..]", "block = &block[256..]"),
+    "b3_pshufb_mask_byte": (SSE, "_mm_set_epi8(12, 13, 14, 15, 8,", "_mm_set_epi8(12, 13, 15, 14, 8,"),
+    "b4_sigma0_shift": (SSE, "_mm_xor_si128(_mm_srli_epi32(w, 7), _mm_srli_epi32(w, 18))", "_mm_xor_si128(_mm_srli_epi32(w, 7), _mm_srli_epi32(w, 19))"),
+    "b5_schedule_register_arg": (SSE, "SCHEDULE_ROUND_INC!(schedule, i, w3, w0, w2, w11);\n        SCHEDULE_ROUND_INC!(schedule, i, w4, w1, w3, w12);\n        SCHEDULE_ROUND_INC!(schedule, i, w5, w2, w4, w13);\n        SCHEDULE_ROUND_INC!(schedule, i, w6",
+                                 "SCHEDULE_ROUND_INC!(schedule, i, w3, w0, w2, w12);\n        SCHEDULE_ROUND_INC!(schedule, i, w4, w1, w3, w12);\n        SCHEDULE_ROUND_INC!(schedule, i, w5, w2, w4, w13);\n        SCHEDULE_ROUND_INC!(schedule, i, w6"),
+    "b6_extract_index_off_by_one": (SSE, "_mm_extract_epi32(*schedule.get_unchecked($i), $j)", "_mm_extract_epi32(*schedule.get_unchecked($i + 1), $j)"),
+    "b7_compress_lane_order": (SSE, "compress_once!(1);\n    compress_once!(2);", "compress_once!(2);\n    compress_once!(1);"),
+    "b8_avx_insert_lane": (AVX, "temp = _mm256_insert_epi32(temp, read(block.add(64)), 4);", "temp = _mm256_insert_epi32(temp, read(block.add(64)), 5);"),
+    "b9_tail_store_index": (SSE, "schedule[49] = _mm_add_epi32(w1,", "schedule[48] = _mm_add_epi32(w1,"),
+    "b10_batch_threshold": (SSE, "while block.len() >= 256 {", "while block.len() > 256 {"),
+    "b11_round_ch": (AVX, ".wrapping_add($g ^ ($e & ($f ^ $g)))", ".wrapping_add($f ^ ($e & ($f ^ $g)))"),
+    "b12_avx_falls_to_reference": (AVX, "sse41::digest_block(state, block)", "sse41::digest_block(state, &block[..0])"),
+    "b13_schedule_k_index": (AVX, "$schedule[$i] = _mm256_add_epi32($w3, _mm256_set1_epi32(K32[$i] as i32));", "$schedule[$i] = _mm256_add_epi32($w3, _mm256_set1_epi32(K32[$i + 1] as i32));"),
+    "b_whitespace_comment": None,
 }
 
 def sh(cmd, env=None, cwd=None):
@@ -45,9 +63,13 @@ def harmless(fam):
     for f in files:
         p = os.path.join(RC, f); s = open(p).read()
         s = "// leading comment\n\n" + s
-        s = s.replace("unsafe {", "unsafe   {   // a comment\n        /* block\n comment */")
-        s = s.replace("_mm_add_epi32(", "_mm_add_epi32 (\n  ")
-        s = s.replace(";\n", " ;\n", 40)
+        if fam == "a":
+            s = s.replace("unsafe {", "unsafe   {   // a comment\n        /* block\n comment */")
+            s = s.replace("_mm_add_epi32(", "_mm_add_epi32 (\n  ")
+            s = s.replace(";\n", " ;\n", 40)
+        else:       # the older table extractor (tools/extractors/simd.py) is line-oriented: comments and blank lines only
+            s = s.replace(";\n", ";   // a comment\n", 60)
+            s = s.replace("{\n", "{\n\n    /* block\n comment */\n", 12)
         open(p, "w").write(s)
 
 def run(name):
@@ -64,7 +86,12 @@ def run(name):
         open(p, "w").write(s)
     gpath = os.path.join(V, "lean/CxVerif/Extracted/GlueSimd.lean")
     base = open(gpath).read()
+    edir = os.path.join(V, "lean/CxVerif/Extracted")
+    saved = {f: open(os.path.join(edir, f)).read() for f in os.listdir(edir) if f.endswith(".lean") and f != "GlueSimd.lean"} if ISOLATE else {}
     rc, out = sh(["python3", "tools/extract_tables.py"], env={"CX_REPO": RC}, cwd=V)
+    for f, txt in saved.items():
+        if open(os.path.join(edir, f)).read() != txt:
+            open(os.path.join(edir, f), "w").write(txt)
     gen = open(gpath).read()
     t0 = time.time()
     mods = MODS[fam]
@@ -79,8 +106,9 @@ def run(name):
     failed = re.findall(r"TRANSLATION FAILED: ([^\n]*?) -/", gen)
     return dict(mutation=name, generated_changed=gen != base, extraction_errors=failed[:2], build_ok=rc == 0, seconds=round(dt, 1), failing=thms[:8])
 
+ISOLATE = "--isolate" in sys.argv
 if __name__ == "__main__":
-    names = sys.argv[1:] or list(MUT)
+    names = [a for a in sys.argv[1:] if not a.startswith("--")] or list(MUT)
     fams = sorted({n[0] for n in names})
     allmods = [m for f in fams for m in MODS[f]]
     sh(["python3", "tools/extract_tables.py"], cwd=V)
